@@ -346,6 +346,16 @@ func randomCases(full bool, r *lib.Rng, emit func(*Case)) {
 	}
 }
 
+func (t *T) depth() int {
+	m := 0
+	for _, k := range t.Kids {
+		if d := k.depth() + 1; d > m {
+			m = d
+		}
+	}
+	return m
+}
+
 // ---- exhaustive boxes ------------------------------------------------------------------------
 
 // smallDocs enumerates every tree over leaves {1, 2}, arrays of 0-2 elements and objects over the
@@ -417,15 +427,32 @@ func boxTargets(maxLen int) []Target {
 func boxCases(full bool, r *lib.Rng, emit func(*Case)) {
 	docs := smallDocs(2)
 	single := boxTargets(2)
-	if full {
-		single = boxTargets(3)
-	}
 	rep.Exhaustive = append(rep.Exhaustive,
-		"documents: every tree of depth <= 2 over leaves {1,2}, arrays of 0-2 elements, objects over names a,b in both orders",
-		"single targets: every fragment sequence of length <= 2 (thorough: 3) over 16 fragments (child a/b, index 0/1/-1, wildcard, two unions, five slices, descent, two filters), times every such document")
+		"documents: every tree of depth <= 2 over leaves {1,2}, arrays of 0-2 elements, objects over names a,b in both orders (1522 documents)",
+		"single targets: every fragment sequence of length <= 2 over 16 fragments (child a/b, index 0/1/-1, wildcard, two unions, five slices, descent, two filters), times every such document")
 	for _, d := range docs {
 		for _, tg := range single {
 			emit(&Case{Doc: d, Targets: []Target{tg}, Stream: "box.single"})
+		}
+	}
+	if full {
+		// length 3: every document of depth <= 1, and a quarter of the deeper ones (chosen by the seed)
+		var three []Target
+		for _, tg := range boxTargets(3) {
+			if len(tg) == 3 {
+				three = append(three, tg)
+			}
+		}
+		rep.Exhaustive = append(rep.Exhaustive,
+			"single targets of length 3 over the same fragments, times every document of depth <= 1 (and a seed-chosen quarter of the depth-2 documents)")
+		pick := r.Intn(4)
+		for i, d := range docs {
+			if d.depth() > 1 && i%4 != pick {
+				continue
+			}
+			for _, tg := range three {
+				emit(&Case{Doc: d, Targets: []Target{tg}, Stream: "box.single3"})
+			}
 		}
 	}
 	// pairs of short targets on the depth <= 1 documents plus a sample of the deeper ones
